@@ -140,6 +140,19 @@ Section C14.
     exists r' c', 0 <= r' < nr /\ 0 <= c' < nc /\ spec_valid (mask r' c') = true.
   Proof. exact (interp_filled_needs_valid m nr nc off disp mask NB). Qed.
 
+  (* a flagged pixel with no valid pixel in sight stays exactly as it was (flagged invalid, same
+     disparity): every pixel of the map lying on one of the documented scan directions (16
+     half-step directions for mc-cnn -- they include the row, 8 for sgm) is plainly invalid,
+     i.e. neither valid nor an occlusion / mismatch that could itself get filled *)
+  Theorem C14_nothing_in_sight_stays_flagged : forall r c, 0 <= r < nr -> 0 <= c < nc ->
+    remarked_by m nr nc off r c = false ->
+    match m with
+    | McCnn => nothing_in_sight halfstep dirs16_rc nr nc mask r c
+    | Sgm => nothing_in_sight straight dirs8_rc nr nc mask r c
+    end ->
+    disp' r c = disp r c /\ mask' r c = mask r c.
+  Proof. exact (interp_nothing_in_sight m nr nc off disp mask NB). Qed.
+
   (* a map without any valid pixel: no disparity changes and no flagged pixel loses its flag
      (the per-pixel statement "nothing valid along the scan directions => untouched" is part
      of the Spec met in C14_mc_cnn_meets_spec / C14_sgm_meets_spec) *)
@@ -252,6 +265,16 @@ Example C14_D5_regression :
     = (Some (5 # 4)%Q, 256).
 Proof. vm_compute. repeat split. Qed.
 
+(* the hypothesis of C14_nothing_in_sight_stays_flagged holds at the centre of the D5 map *)
+Ltac Zify.zify_post_hook ::= Z.to_euclidean_division_equations.   (* lia on Z.quot *)
+Example C14_D5_nothing_in_sight :
+  nothing_in_sight halfstep dirs16_rc 3 3 (d5_mask 512) 1 1 /\ nothing_in_sight straight dirs8_rc 3 3 (d5_mask 256) 1 1.
+Proof.
+  split; intros d i Hd Hi [H1 H2]; unfold dirs16_rc, dirs8_rc in Hd; cbn [In] in Hd;
+    repeat (destruct Hd as [<-|Hd]; [unfold halfstep, straight in *; cbn [fst snd] in *;
+      assert (i = 1) by lia; subst i; split; reflexivity|]); destruct Hd.
+Qed.
+
 (* mc-cnn mismatch as found: the zero of np.zeros left by a path that neither left the map
    nor met a valid pixel within max(nrow, ncol) - 1 steps was taken for a disparity
    (1x4 map [mismatch; invalid; invalid; invalid]: "filled" with 0); repaired: left flagged *)
@@ -295,6 +318,7 @@ Print Assumptions C14_other_bits_untouched.
 Print Assumptions C14_filled_or_stays_flagged.
 Print Assumptions C14_filled_between_min_max_valid.
 Print Assumptions C14_filled_is_from_valid.
+Print Assumptions C14_nothing_in_sight_stays_flagged.
 Print Assumptions C14_unfillable_stays_invalid.
 Print Assumptions C14_border_bit0.
 Print Assumptions C14_no_wrap.
